@@ -8,6 +8,7 @@ at step g+1+ceil(delay/dt) by r only, exactly once, iff r is alive then; same-st
 one agent are handled in send order.
 """
 import math
+from decimal import Decimal
 from fractions import Fraction
 
 from hypothesis import strategies as st
@@ -29,7 +30,7 @@ ASSUMPTIONS = [
     "Model.run() is configured through run_specs with integer start/stop (the documented path)",
 ]
 
-DTS = ["1", "0.5", "0.25", "0.2", "0.1"]
+DTS = ["1", "0.5", "0.25", "0.2", "0.1", "0.04"]  # 0.04: 0.28/0.04 is 7.000000000000001 in floats
 
 
 class Driver:
@@ -47,6 +48,8 @@ class Driver:
         self.handled = []  # (g, agent_id, serial) in handling order
         self.handled_uid = {}  # serial -> uid of the handling agent instance
         self.serial = 0
+        self.by_obj = {}  # id(event object) -> serial (objects are kept alive in self.keep)
+        self.keep = []
         self.plan = {}
         self.flags = set()
 
@@ -112,22 +115,32 @@ class Driver:
                 model.enqueue_event(Event("noise", agent.id, rid, data=None))
                 self.flags.add("unhandled-kind")
                 continue
-            self.serial += 1
             delay = s.get("delay")
-            rec = {"serial": self.serial, "g": self.g, "receiver": rid, "delay": None if delay is None else Fraction(delay),
-                   "sender": agent.id, "receiver_uid": self.live_at[self.g].get(rid)}
-            self.sent.append(rec)
-            if delay is None:
-                model.enqueue_event(Event("ev", agent.id, rid, data=self.serial))
-            else:
-                model.enqueue_event(DelayedEvent("ev", agent.id, rid, delay=float(delay), data=self.serial))
-                self.flags.add("delayed")
+            # "twin": two distinct event objects with equal contents (same name, sender, receiver, data, delay) in one step;
+            # they are told apart by object identity, and each must be handled once
+            for _copy in range(2 if s.get("twin") else 1):
+                self.serial += 1
+                rec = {"serial": self.serial, "g": self.g, "receiver": rid, "delay": None if delay is None else Fraction(delay),
+                       "sender": agent.id, "receiver_uid": self.live_at[self.g].get(rid)}
+                self.sent.append(rec)
+                data = "twin" if s.get("twin") else self.serial
+                if delay is None:
+                    ev = Event("ev", agent.id, rid, data=data)
+                else:
+                    ev = DelayedEvent("ev", agent.id, rid, delay=float(delay), data=data)
+                    self.flags.add("delayed")
+                self.by_obj[id(ev)] = self.serial
+                self.keep.append(ev)
+                model.enqueue_event(ev)
+            if s.get("twin"):
+                self.flags.add("twin-events")
             if rid not in self.live_at[self.g]:
                 self.flags.add("send-to-dead-id")
 
     def on_event(self, agent, event):
-        self.handled.append((self.g, agent.id, event.data))
-        self.handled_uid[event.data] = self.uid_of(agent)
+        serial = self.by_obj.get(id(event), event.data)
+        self.handled.append((self.g, agent.id, serial))
+        self.handled_uid[serial] = self.uid_of(agent)
 
     def end(self, model):
         g = self.g
@@ -300,6 +313,8 @@ def delay_strategy(dt):
     d = Fraction(dt)
     opts = [None, None, "0", str(float(d / 2)), dt, str(float(2 * d)), str(float(3 * d)), str(float(d * 3 / 2)), str(float(5 * d)),
             "0.3", "0.7", "1", "1.5", "0.6"]
+    # exact decimal multiples k*dt (the float quotient of some of them lies an ulp beside k)
+    opts += [str(Decimal(dt) * k) for k in (4, 6, 7, 7, 9)]
     return st.sampled_from(opts)
 
 
@@ -320,7 +335,8 @@ def case_strategy(max_steps):
         send = st.fixed_dictionaries({"s": st.integers(0, 5), "r": st.integers(0, 8), "live": st.booleans(),
                                       "delay": delay_strategy(dt),
                                       "bcast": st.sampled_from([None, None, None, None, "A"]),
-                                      "noise": st.sampled_from([False, False, False, False, True])})
+                                      "noise": st.sampled_from([False, False, False, False, True]),
+                                      "twin": st.sampled_from([False, False, False, False, False, True])})
         gap = st.one_of(
             st.tuples(st.just("del"), st.integers(0, 5)).map(list),
             st.tuples(st.just("create"), st.sampled_from([p[0] for p in pop])).map(list),
